@@ -119,6 +119,22 @@ CHECKS = {
             "x86-64 register/sub-register/stack parameters and a hand-built x86-32 cdecl project; values clustered at 0o177, 0o777 and the pointer size. Held = warning iff predicate, per call site, no spurious or duplicate warnings, on the sites counted in the evidence.",
             "every parameter is computed inside the call block from constants alone; stores only at constant stack offsets",
             "DESIGN.md §3 C18"),
+
+    "C21": ("vmon-cli",
+            "subprocess monitor of the real CLI binary: generated P-Code projects + matching generated ELF files run through `cwe_checker --pcode-raw` (default, all-checks and random --partial selections) under a watchdog; output-well-formedness checker with an independent sort-order comparator; a few runs under valgrind memcheck",
+            "Hundreds to thousands of real CLI runs per quick tier (x86-64 projects with 2-6 functions, ~40 libc externs, loops, calls, globals; ET_EXEC/ET_DYN/ET_REL images). Held = exit 0, no panic text, JSON array, names/versions match --module-versions, canonical order, on the runs counted in the evidence. Watchdog firing is inconclusive.",
+            "generator emits what the extractor can emit (every input is first deserialised into pcode::Project as self-check); CWE125/787 and CWE415 accepted as documented variants of CWE119/CWE416",
+            "DESIGN.md §3 C21"),
+    "C22": ("vmon-cli",
+            "event-log monitor: hook H2 (feature verif) logs one module_run event per executed check; the recorded set is compared with the requested selection (partial lists incl. duplicates/invalid names, default run, kernel-module ELF) and with the names of the printed warnings; --module-versions compared with get_modules()",
+            "Thousands of CLI runs per quick tier; executed set == requested set (each once), default = all minus CWE78, kernel module = LKM subset, every warning's owning check executed, built-in triggers honoured. One recorded known finding (module Memory prints CWE476 warnings) printed as KNOWN-FINDING. Zero events overall = inconclusive.",
+            "--partial on kernel modules restricted to the LKM subset (other checks lack a config section there)",
+            "DESIGN.md §3 C22"),
+    "C23": ("vmon-cli",
+            "differential monitor over repeated executions: each generated input analysed 6 (quick) / 24 (thorough) times in fresh processes (fresh hash seeds), alternating CPU pinning and shuffled --partial order; byte-identical stdout and exit status required",
+            "Inputs biased towards order sensitivity (shared blocks, long dependent expression chains, many externs). Held = no differing run among those executed; a dependence showing with probability p per run pair is missed with probability (1-p)^(n-1) per input. Replay re-runs the stored input N times and reports k of n differing.",
+            "hash seeds cannot be pinned from outside, they are sampled by re-running",
+            "DESIGN.md §3 C23"),
 }
 
 NOT_YET = "monitor designed (DESIGN.md §3) but not built yet in this revision of /verif"
